@@ -114,6 +114,38 @@ def _tables(repo, rep):
               "R04.1", xe.qualname + ".exceptions",
               "exists: swallows lookup-type exceptions only",
               construct="exists-exceptions", detail=str(ex2))
+    # the prefix pattern: optional white space, a lower-case word, ':'
+    mp = repo.module("chameleon.tales").assigns.get("match_prefix")
+    pat = None
+    if mp and isinstance(mp[-1], ast.Attribute) and \
+            mp[-1].attr == "match" and isinstance(mp[-1].value, ast.Call):
+        try:
+            pat = repo.fold(mp[-1].value, repo.module("chameleon.tales"))
+        except NotConst:
+            pat = None
+    ok = False
+    detail = getattr(pat, "pattern", str(pat))
+    if pat is not None and hasattr(pat, "pattern"):
+        from .. import rx
+        tree = list(rx.parse(pat.pattern, pat.flags))
+        kinds = [str(op) for op, av in tree]
+        # AT_BEGINNING, optional space*, group(1) = word, ':'
+        gtree = rx.group_tree(rx.parse(pat.pattern, pat.flags))
+        last = tree[-1] if tree else None
+        starts = tree and tree[0][0] is rx.C.AT
+        colon = last is not None and last[0] is rx.C.LITERAL and \
+            chr(last[1]) == ":"
+        grp = [av for op, av in tree if op is rx.C.SUBPATTERN and av[0] == 1]
+        word_ok = False
+        if grp:
+            info = rx.analyse(grp[0][3])
+            lower = rx.CharSet([(97, 122)])
+            word_ok = info.first == lower and not info.nullable
+        ok = bool(starts and colon and word_ok)
+    rep.check(ok, "R04.1", "chameleon.tales.match_prefix",
+              "a type prefix is a word starting with a lower-case letter, "
+              "anchored at the start (after optional white space) and "
+              "followed by ':'", construct="prefix-pattern", detail=detail)
     # ExpressionParser: prefix regex + dispatch
     pf = repo.func(TALES + "ExpressionParser.__call__")
     text = " ".join(src(s) for s in ast.walk(pf.node)
